@@ -802,6 +802,11 @@ class EbuildProcessor:
             lines.append(f"export {' '.join(exported)}")
         return "\n".join(lines)
 
+    def _byte_len(self, data):
+        """Size of data as the daemon counts it: it runs in the C locale, where
+        `read -N` counts bytes, not characters."""
+        return len(data.encode(self.ebd_write.encoding, self.ebd_write.errors))
+
     def send_env(self, env_dict, async_req=False, tmpdir=None):
         """Transfer the ebuild's desired env (env_dict) to the running daemon.
 
@@ -817,7 +822,8 @@ class EbuildProcessor:
             self.write(f"start_receiving_env file {path}")
         else:
             self.write(
-                f"start_receiving_env bytes {len(data)}\n{data}", append_newline=False
+                f"start_receiving_env bytes {self._byte_len(data)}\n{data}",
+                append_newline=False,
             )
         os.umask(old_umask)
         return self.expect("env_received", async_req=async_req, flush=True)
@@ -850,7 +856,9 @@ class EbuildProcessor:
         # filter here, so that a screwy default doesn't result in resetting it
         # every time.
         data = os.pathsep.join(filter(None, paths))
-        self.write(f"set_metadata_path {len(data)}\n{data}", append_newline=False)
+        self.write(
+            f"set_metadata_path {self._byte_len(data)}\n{data}", append_newline=False
+        )
         if self.expect("metadata_path_received", flush=True):
             self._metadata_paths = paths
 
@@ -865,7 +873,9 @@ class EbuildProcessor:
 
         env = expected_ebuild_env(package_inst, env, depends=True)
         data = self._generate_env_str(env)
-        self.write(f"{command} {len(data)}\n{data}", append_newline=False)
+        self.write(
+            f"{command} {self._byte_len(data)}\n{data}", append_newline=False
+        )
 
         updates = None
         if self._eclass_caching:
